@@ -329,10 +329,16 @@ def ruleDateDOW(ts: datetime, date: Time, dow: Time) -> Time:
 # LatentX: handle time entities that are not grounded to a date yet
 # and assume the next date+time in the future
 @rule(predicate("isDOM"))
-def ruleLatentDOM(ts: datetime, dom: Time) -> Time:
+def ruleLatentDOM(ts: datetime, dom: Time) -> Optional[Time]:
+    # relativedelta(day=N) silently clips N to the length of the month:
+    # move on month by month until the month really has that day
+    months = 0
     dm = ts + relativedelta(day=dom.day)
-    if dm <= ts:
-        dm += relativedelta(months=1)
+    while dm.day != dom.day or dm <= ts:
+        months += 1
+        if months > 12:
+            return None
+        dm = ts + relativedelta(months=months, day=dom.day)
     return Time(year=dm.year, month=dm.month, day=dm.day)
 
 
@@ -345,10 +351,16 @@ def ruleLatentDOW(ts: datetime, dow: Time) -> Time:
 
 
 @rule(predicate("isDOY"))
-def ruleLatentDOY(ts: datetime, doy: Time) -> Time:
+def ruleLatentDOY(ts: datetime, doy: Time) -> Optional[Time]:
+    # same clipping hazard: 29.2. must wait for the next leap year and a day
+    # the month never has (30.2., 31.4.) is not a date at all
+    years = 0
     dm = ts + relativedelta(month=doy.month, day=doy.day)
-    if dm < ts:
-        dm += relativedelta(years=1)
+    while dm.day != doy.day or dm < ts:
+        years += 1
+        if years > 8:
+            return None
+        dm = ts + relativedelta(years=years, month=doy.month, day=doy.day)
     return Time(year=dm.year, month=dm.month, day=dm.day)
 
 
